@@ -91,6 +91,25 @@ def install():
     def _zip(ex, *its):
         return list(zip(*[ex.iterate(i) for i in its]))
 
+    _NODEFAULT = object()
+
+    @_B('iter')
+    def _iter(ex, it):
+        from .core import GenList
+        return GenList(ex.iterate(it))
+
+    @_B('next')
+    def _next(ex, it, default=_NODEFAULT):
+        # generators / iterators are evaluated eagerly into a GenList (element evaluation in this subset has no side effects)
+        from .core import GenList
+        if not isinstance(it, GenList):
+            raise Unsupported('next() on %r' % type(it).__name__)
+        if it:
+            return it.pop(0)
+        if default is _NODEFAULT:
+            raise PyRaise('StopIteration', '')
+        return default
+
     @_B('reversed')
     def _reversed(ex, it):
         return list(reversed(ex.iterate(it)))
